@@ -139,6 +139,15 @@ PROPS = {
         fields=[12, 13, 17, 18],
         rule=CHAIN_RULE + "; settlement fees feed the reward pool (oracle share 0.5), pro-bono rates 0, 0.3, 0.5, 0.333.., 1; every registered crisis invariant is evaluated on the real app after every block",
         assumptions=["x/distribution AllocateTokensToValidator credits exactly the DecCoins it is given; the SDK modules' own invariants are observed (crisis AssertInvariants after every block), not proved"]),
+    'C16': dict(
+        theorems=['C16_gas_cost', 'C16_required_fee', 'C16_first_covered', 'C16_surplus_irrelevant', 'C16_only_kinds_matter',
+                  'C16_split', 'C16_charged_regardless', 'C16_uncovered_rejected'],
+        runs=[func('ante', 'ante', 320, 8000, 'ante_mismatches', 'ante_check_C16', fields=[1, 6, 8], shards_quick=8, shards_thorough=16),
+              chain('settle', 'settlement', 24, 800, 'no_check')],
+        fields=[12, 20],
+        rule=ANTE_RULE + "; pure settlement transactions additionally vary the governance parameters (1-3 gas prices incl. 10^-18 and non-terminating decimals, oracle share 0 .. 1), the offered fee (requirement -1 / 0 / +1 / +surplus per denomination, several denominations), the gas limit, and whether the messages succeed; the three transfers of the ante handler are read from the bank events of the transaction",
+        assumptions=ANTE_ASSUME + ["the evmos post handler burns min(offered fee, fee-collector balance) after every Cosmos transaction: the collector's share of a settlement fee is credited and then burnt; the split is therefore observed on the transfers (bank events), not on the collector's end balance",
+                                   "block gas limit -1 (as the suite runs); with a finite limit baseapp skips transactions once the block gas meter is exhausted"]),
     'C17': dict(
         theorems=['C17_settlement_roundtrip', 'C17_oracle_roundtrip', 'C17_roundtrip_after_any_history', 'C17_genesis_hypotheses'],
         runs=[chain('roundtrip', 'roundtrip', 48, 1600, 'check_C17')],
@@ -168,6 +177,8 @@ SETTLE_TECH = "Coq proof: invariant by induction over histories of the generalis
 
 ANTE_TECH = "Coq proof: structural induction over nested message trees with the authz limiter's nesting counter modelled as coded + differential correspondence on transaction shapes through ABCI"
 LEVELS = {
+    'C16': dict(text="Unbounded theorems: fixed gas cost formula; requirement = floor(price x gas) for every price and gas; the charge is exactly the requirement of the FIRST configured denomination the offered fee covers; it is independent of any surplus offered and of everything but the message kinds; collector floor(f(1-q)) and pool floor(fq) sum to f or f-1 for every q in [0,1]; the pool share is credited whether the messages succeed, fail or panic; an uncovered transaction changes nothing. Correspondence: parameterised fee cases through ABCI with the three transfers read from the transaction's bank events, plus the reward pool in chain histories.",
+                note=PROOF_NOTE, technique="Coq proof (Dec arithmetic, nia) + differential correspondence on parameterised settlement transactions through ABCI"),
     'C03': dict(text="Unbounded theorems over ALL transaction shapes (any message list, authz exec nested to any depth, grants, any signer / fee payer): every oracle message an admitted transaction executes is covered by the signature of the validator's operator or current feeder; an admitted transaction that executes an oracle message consists of exactly that message; handlers change only the named validator's ballot. Correspondence: ~240 shapes per run delivered through ABCI, admitted <-> code 0 compared with the model, effects on ballots observed.",
                 note=PROOF_NOTE, technique=ANTE_TECH),
     'C04': dict(text="Unbounded theorems over ALL transaction shapes: after genesis no admitted transaction executes a create-validator message; a settlement message is executed only as a top-level message of a pure settlement transaction that offers the fixed fee; no authz grant of a restricted type is admitted. Proved against the limiter's recursive check with its running nesting counter as coded. Correspondence on shapes through ABCI incl. nesting up to and beyond the limit.",
@@ -200,4 +211,4 @@ LEVELS = {
 }
 
 NOT_APPLICABLE = {p: "work in progress in this session: model exists, check not yet registered" for p in
-                  ['C13','C16','C18','C19','C20']}
+                  ['C13','C18','C19','C20']}
